@@ -8,3 +8,13 @@ chk("C17",
     "bytes.hex/fromhex, slicing. utf-8 conversion is compared against Lean's String.toUTF8 only in the correspondence (no theorem).",
     "Lean 4 proof (induction over lists/fuel) + differential correspondence with the compiled model driver",
     "6/C17")
+chk("C18",
+    "Unbounded theorems (Props/C18.lean) that the code's (value,length) pair behaves as the MSB-first bit list for every value and length: "
+    "list<->pair round trip, constructor keeps/refuses/auto-sizes (bit_length), concat = append, higher/lower k = take/drop (refused beyond "
+    "the length), (a+b).higher/lower recover a and b, halving, and/or/xor/invert/shifts bit-by-bit with well-formedness preserved, indexing, "
+    "slicing, bytes = ceil(n/8)-byte big-endian, equality. Tied to toolkit/bits.py by an exhaustive small-domain differential run (all values "
+    "of length <= 6 for every op, all pairs of length <= 4) plus boundary/random values to 300 bits, and by the direct oracle on the real code.",
+    "Trusted: Lean kernel + 3 standard axioms; CPython int arithmetic and slice.indices/range as modelled in Model/PySeq; __setitem__ not modelled "
+    "(not named by the property); values are non-negative.",
+    "Lean 4 proof (Nat.testBit extensionality) + exhaustive/random differential correspondence",
+    "6/C18")
